@@ -389,10 +389,20 @@ def rule_empty(prog: Program) -> List[Instance]:
     n_inst = 0
     for fi in prog.all_functions({"geobox"}):
         maybe_empty: Set[str] = set()
+        # names bound to an outline (footprint()/extent of a geobox), so that `a & b` on such names is recognised
+        outline: Set[str] = set()
+        for n in walk_own(fi.node):
+            if isinstance(n, ast.Assign) and len(n.targets) == 1 and isinstance(n.targets[0], ast.Name):
+                if has_call(n.value, "footprint") or any(isinstance(x, ast.Attribute) and x.attr in ("extent", "geographic_extent") for x in ast.walk(n.value)):
+                    outline.add(n.targets[0].id)
+
+        def is_outline(e: ast.AST) -> bool:
+            return has_call(e, "footprint") or "extent" in short(e) or (isinstance(e, ast.Name) and e.id in outline)
+
         for n in walk_own(fi.node):
             if isinstance(n, ast.Assign) and len(n.targets) == 1 and isinstance(n.targets[0], ast.Name):
                 for x in ast.walk(n.value):
-                    if isinstance(x, ast.BinOp) and isinstance(x.op, ast.BitAnd) and (has_call(x.left, "footprint") or has_call(x.right, "footprint") or "extent" in short(x)):
+                    if isinstance(x, ast.BinOp) and isinstance(x.op, ast.BitAnd) and (is_outline(x.left) or is_outline(x.right)):
                         maybe_empty.add(n.targets[0].id)
                     if isinstance(x, ast.Call) and call_name(x) in ("intersection", "difference") and isinstance(x.func, ast.Attribute):
                         maybe_empty.add(n.targets[0].id)
